@@ -132,6 +132,29 @@ def ob_exp_setter(which, L, newsize):
     return FnOb([(f"i{j}", "int", None, None) for j in range(L)], run, assume=assume, max_paths=500)
 
 
+def ob_exp_list_then_sched(which, newsize, L):
+    """history of two setter calls: first one object list is replaced (by a list of another length), then the schedules are assigned:
+    the new schedules are judged against the CURRENT lists (accept <=> well-formed for the new sizes), for every index value"""
+    base = dict(state=2, povm=2, gate=2, mprocess=2)
+
+    def run(I):
+        import quara.qcircuit.experiment as E
+        kinds = [KINDS[int(I[f"k{j}"])] for j in range(L)]
+        idx = [I[f"i{j}"] for j in range(L)]
+        exp = make_exp(E, [[("state", 0), ("povm", 0)]], base)
+        attr = which + ("es" if which == "mprocess" else "s")
+        res0, _ = try_accept(E, lambda: setattr(exp, attr, [None] * newsize))
+        if res0 != "accept":
+            raise core.Outside("replacing the list itself was rejected (the fixed schedule uses index 0 of a now empty list)")
+        sz2 = dict(base)
+        sz2[which] = newsize
+        new = [[(k, i) for k, i in zip(kinds, idx)]]
+        res, _ = try_accept(E, lambda: setattr(exp, "schedules", new))
+        ok = spec_accepts(kinds, idx, sz2)
+        return [Holds("after a list was replaced: schedules setter accepts <=> well-formed for the CURRENT list sizes", iff(res == "accept", ok))]
+    return FnOb([(f"k{j}", "int", 0, len(KINDS) - 1) for j in range(L)] + [(f"i{j}", "int", None, None) for j in range(L)], run, max_paths=3000)
+
+
 def ob_exp_sched_setter(L, sizes):
     """schedules setter re-validates like the constructor and keeps the old schedules on rejection"""
     sz = dict(zip(LISTS, sizes))
@@ -264,6 +287,10 @@ def obligations(tier):
         for L in tiers(tier, [2, 3], [2, 3, 4]):
             for ns in (0, 1, 2, 3):
                 out += specs("C20.exp.setter", [{"which": which, "L": L, "newsize": ns}], ob_exp_setter, 1)
+    for which in LISTS:
+        for ns in (1, 3):
+            for L in tiers(tier, [2], [2, 3]):
+                out += specs("C20.exp.list_then_schedules", [{"which": which, "newsize": ns, "L": L}], ob_exp_list_then_sched, 2)
     for L in tiers(tier, [2, 3], [1, 2, 3, 4]):
         for s in ([(1, 1, 1, 1), (2, 1, 0, 1)] if tier == "quick" else OA9[1:] + [(1, 1, 1, 1)]):
             if s[0] == 0 or s[1] == 0:
